@@ -18,6 +18,17 @@ func (o *OperandPegImpl) Require66h() bool {
 	is16bitMode := o.bitMode == cpu.MODE_16BIT
 	is32bitMode := o.bitMode == cpu.MODE_32BIT // 16ビットでなければ32ビットと仮定
 
+	// レジスタまたはサイズ指定付きメモリがオペランドサイズを決める場合、
+	// 即値の大きさはオペランドサイズを左右しない (MOV AX,0xffff は 16 ビット命令)
+	sizedByOperand := lo.SomeBy(o.parsedOperands, func(p *ParsedOperandPeg) bool {
+		if p == nil {
+			return false
+		}
+		t := p.Type
+		return isR8Type(t) || isR16Type(t) || isR32Type(t) || isR64Type(t) ||
+			((t == CodeM || t == CodeM8 || t == CodeM16 || t == CodeM32) && p.DataType != ast.None)
+	})
+
 	for _, parsed := range o.parsedOperands {
 		if parsed == nil {
 			continue
@@ -28,17 +39,20 @@ func (o *OperandPegImpl) Require66h() bool {
 		baseType := parsed.Type
 
 		switch {
-		case isR8Type(baseType) || (baseType == CodeM && parsed.DataType == ast.Byte):
+		case isR8Type(baseType) || ((baseType == CodeM || baseType == CodeM8) && parsed.DataType == ast.Byte):
 			inherentSize = 8
-		case isR16Type(baseType) || (baseType == CodeM && parsed.DataType == ast.Word):
+		case isR16Type(baseType) || ((baseType == CodeM || baseType == CodeM16) && parsed.DataType == ast.Word):
 			inherentSize = 16
-		case isR32Type(baseType) || (baseType == CodeM && parsed.DataType == ast.Dword):
+		case isR32Type(baseType) || ((baseType == CodeM || baseType == CodeM32) && parsed.DataType == ast.Dword):
 			inherentSize = 32
 		case isCREGType(baseType): // Check if it's a control register
 			inherentSize = 32 // Control registers (like CR0) are 32-bit in IA-32e
 		case isR64Type(baseType): // TODO: QWORD がサポートされたら M64 チェックを追加
 			inherentSize = 64
 		case baseType == CodeIMM || baseType == CodeIMM8 || baseType == CodeIMM16 || baseType == CodeIMM32 || baseType == CodeIMM64:
+			if sizedByOperand {
+				break
+			}
 			// 即値自体から推定されるサイズを使用
 			immSize := getImmediateSizeType(parsed.Immediate)
 			switch immSize {
